@@ -38,6 +38,12 @@ pub struct Case {
     /// limit of an integer width, in every spelling) in one of EDGE_FRAMES
     #[serde(default)]
     pub edge: Option<u16>,
+    /// non-zero (well-formed, label-free instructions only): the instruction's tokens are written
+    /// with the separators the assembler treats as blanks - commas, tabs, runs of blanks,
+    /// free-standing colons, also before the mnemonic and after the last operand - and in mixed
+    /// case; lace's own assembler decides that the text still is that one instruction
+    #[serde(default)]
+    pub spacing: u16,
 }
 
 /// Statement frames in which no number of magnitude >= 127 is a legal operand.
@@ -157,7 +163,39 @@ pub fn judge_case(c: &Case) -> Obs {
         return obs;
     }
     let aliases = vec![0u8; cmds.len()];
-    let script = script_text(&cmds, &aliases, model.kept, true, Some("exit"));
+    let mut script = script_text(&cmds, &aliases, model.kept, true, Some("exit"));
+    if c.spacing != 0 && c.malformed.is_none() && !matches!(stmt.operand, Operand::Label(_)) {
+        let canonical = crate::refdbg::stmt_text(&stmt);
+        let mut x = c.spacing as u64;
+        let mut next = |n: u64| {
+            x = mix(x.wrapping_add(0x9E3779B97F4A7C15));
+            (x % n) as usize
+        };
+        let mut text = String::from(["", "", ": ", ", ", " \t"][next(5)]);
+        let toks: Vec<&str> = canonical.split(' ').collect();
+        for (i, t) in toks.iter().enumerate() {
+            if i > 0 {
+                text.push_str([" ", ",", ", ", " ,", "\t", "  ", " , ", " : ", " :: ", ",,", " :"][next(11)]);
+                if text.ends_with(':') {
+                    text.push(' ');
+                }
+            }
+            let recased: String = t.chars().map(|ch| if next(3) == 0 { ch.to_ascii_uppercase() } else { ch }).collect();
+            // (hex digits and the radix prefix keep their case-insensitivity; string operands do not occur here)
+            text.push_str(&recased);
+        }
+        text.push_str(["", "", " :", " ,", "  ", " : :"][next(6)]);
+        // the assembler's verdict on the text: exactly this one instruction
+        let want = crate::refasm::encode(&crate::refasm::Program { lines: vec![crate::refasm::Line { label: None, body: crate::refasm::Body::Stmt(stmt.clone()) }] }, p.built.stack).map(|i| i.words);
+        let got = match lacebox_assemble(&text, p.built.stack) {
+            Some(w) => Some(w),
+            None => None,
+        };
+        if want.is_some() && got == want && script.contains(&format!("eval {canonical}")) {
+            script = script.replacen(&format!("eval {canonical}"), &format!("eval {text}"), 1);
+            obs.label("eval-text-with-varied-separators");
+        }
+    }
     let shown = show_case(&p, &script, &[]);
     obs.show = Some(shown.clone());
     obs.key = hash_of(&(&p.text, &script));
@@ -227,6 +265,14 @@ pub fn judge_case(c: &Case) -> Obs {
     obs
 }
 
+/// The words lace's assembler makes of `text` on its own (None: rejected).
+fn lacebox_assemble(text: &str, stack: bool) -> Option<Vec<u16>> {
+    match crate::lacebox::assemble(text, stack) {
+        crate::lacebox::AsmResult::Ok(img) => Some(img.words),
+        _ => None,
+    }
+}
+
 fn stmt_op(stmt: &crate::refasm::Stmt, c: &Case) -> String {
     if c.malformed.is_some() {
         "text".into()
@@ -247,10 +293,11 @@ fn cases() -> impl Strategy<Value = Case> {
         any::<bool>(),
         any::<bool>(),
         crate::pick::opt(0.3, any::<u16>()),
+        crate::pick![2 => Just(0u16), 1 => 1u16..=u16::MAX],
     )
-        .prop_map(|(mut spec, pre_steps, goto, setup, eval, malformed, stack, twin_first, lookup_first, edge)| {
+        .prop_map(|(mut spec, pre_steps, goto, setup, eval, malformed, stack, twin_first, lookup_first, edge, spacing)| {
             spec.stack = stack;
-            Case { spec, pre_steps, goto, setup, eval, malformed, twin_first, lookup_first, edge: edge.filter(|_| malformed.is_some()) }
+            Case { spec, pre_steps, goto, setup, eval, malformed, twin_first, lookup_first, edge: edge.filter(|_| malformed.is_some()), spacing }
         })
 }
 
@@ -260,7 +307,7 @@ impl Prop for C15 {
     }
     fn rule(&self) -> &'static str {
         "Sessions `step into k; goto <code address>; move ... (set up registers / memory); eval <X>; move r3 x1234; exit` on ProgGen programs, under both feature settings: X is every register / immediate / base+offset instruction form, label operands (LD, LDI, LEA, ST, STI, JSR, CALL) defined before and after the current PC, stack instructions, output traps, \
-         the off-limits forms (BR*, RTI, HALT, unknown trap vectors), or a malformed text: one of ~100 fixed ones (missing, surplus and wrong-kind operands, two instructions, directives, garbage, multi-byte characters, unknown labels, out-of-range literals), or a number at the limit of an integer width (2^7..2^128, -1/0/+1, bare / zero-padded / signed / under every literal prefix) in one of 11 operand frames where no such number is legal, or the generated well-formed instruction followed by one surplus token of every kind (directives incl. .end, registers, literals, labels, strings, mnemonics, junk) or preceded by a foreign token. \
+         the off-limits forms (BR*, RTI, HALT, unknown trap vectors), a third of the label-free instructions written with the separators the assembler treats as blanks (commas, tabs, runs of blanks, free-standing colons - also before the mnemonic and after the last operand) and in mixed case, once lace's own assembler has confirmed that the text still assembles to that one instruction, or a malformed text: one of ~100 fixed ones (missing, surplus and wrong-kind operands, two instructions, directives, garbage, multi-byte characters, unknown labels, out-of-range literals), or a number at the limit of an integer width (2^7..2^128, -1/0/+1, bare / zero-padded / signed / under every literal prefix) in one of 11 operand frames where no such number is legal, or the generated well-formed instruction followed by one surplus token of every kind (directives incl. .end, registers, literals, labels, strings, mnemonics, junk) or preceded by a foreign token. \
          Oracle: allowed => the state equals RefVM executing, at the current PC, the encoding whose PC-relative field makes the effective address the label's address (registers/PC/CC after every command, full memory at the end, output); PC changes only for jumps; off-limits or malformed => nothing changes; in every case the session goes on (the following `move r3 x1234` takes effect and `exit` ends it). The link value of JSR/JSRR and the word pushed by CALL are masked; literal PC offsets are not generated. \
          Non-trivial: the text is refused / malformed, or PC != origin and the instruction has a label operand or writes memory. Distinct = hash(source, script)."
     }
